@@ -46,6 +46,7 @@ type Case struct {
 	Activity   []Inst `json:"activity"` // sequential activity on other instances
 	Parallel   []Inst `json:"parallel"` // distinct instances used from different goroutines at once
 	QLock      bool   `json:"q_lock"`
+	QGroup     bool   `json:"q_group,omitempty"` // the quiescent router is a group's; requests enter through the group
 	QRegs      []Reg  `json:"q_regs"`
 	QWorkers   int    `json:"q_workers"`
 	QReqs      int    `json:"q_reqs"`
@@ -56,10 +57,14 @@ var (
 	patterns = []string{"/a", "/b/{id}", "/c", "/a/b", "/d/{x}/{y:\\d+}", "/e", "/f", "/g", "/h/{n}",
 		// the same routes with their parameters spelt the other way (captured / ignored): what another router of the
 		// process may well use; one router refuses to hold both spellings
-		"/b/{-id}", "/d/{x}/{-y:\\d+}", "/d/{-x}/{y:\\d+}", "/h/{-n}", "/i/{y:\\d+}/t", "/i/{-y:\\d+}/t"}
+		"/b/{-id}", "/d/{x}/{-y:\\d+}", "/d/{-x}/{y:\\d+}", "/h/{-n}", "/i/{y:\\d+}/t", "/i/{-y:\\d+}/t",
+		// a route with more parameters than usual and a catch-all: a near miss of the first binds and gives up nine names
+		longRoute, "/{path}"}
 	methodSets = [][]string{{"GET"}, {"POST"}, {"GET", "POST"}, {"DELETE", "PUT"}, {"PATCH"}, {"CONNECT", "GET"}, nil, {"PUT"}, {"DELETE"}, {"GET", "DELETE", "PATCH"}, {"POST", "CONNECT"}}
 	domains    = []string{"a.com", "{sub}.b.com", "c.io", "d.net", "{n:\\d+}.e.org", "f.com", "{-sub}.b.com", "{-n:\\d+}.e.org"}
 )
+
+const longRoute = "/l/{a1}/{a2}/{a3}/{a4}/{a5}/{a6}/{a7}/{a8}/{a9}/end"
 
 func genRegs(t *rapid.T, min, max int) []Reg {
 	var out []Reg
@@ -87,6 +92,7 @@ func gen(t *rapid.T) Case {
 		c.Parallel = append(c.Parallel, genInst(t))
 	}
 	c.QLock = rapid.Bool().Draw(t, "qlock")
+	c.QGroup = rapid.Bool().Draw(t, "qgroup")
 	c.QRegs = genRegs(t, 2, 8)
 	c.QWorkers = rapid.IntRange(2, 16).Draw(t, "qworkers")
 	c.QReqs = rapid.IntRange(10, 120).Draw(t, "qreqs")
@@ -115,6 +121,16 @@ func witness(p string, v string) (string, map[string]string) {
 		return "/i/" + v + "/t", map[string]string{"y": v}
 	case "/i/{-y:\\d+}/t":
 		return "/i/" + v + "/t", map[string]string{}
+	case longRoute:
+		ps := map[string]string{}
+		path := "/l"
+		for i := 1; i <= 9; i++ {
+			ps["a"+strconv.Itoa(i)] = v + "-" + strconv.Itoa(i)
+			path += "/" + v + "-" + strconv.Itoa(i)
+		}
+		return path + "/end", ps
+	case "/{path}":
+		return "/zz" + v, map[string]string{"path": "zz" + v}
 	}
 	return p, map[string]string{}
 }
@@ -173,7 +189,7 @@ func runProbe(c Case) (string, *rig.Violation) {
 			path, _ := witness(p, "7")
 			for _, meth := range []string{"HEAD", "OPTIONS", "GET", "PATCH", "HEAD"} {
 				o := rig.Serve(r, rig.Req{Method: meth, Path: path})
-				obs = append(obs, fmt.Sprintf("%s %s -> %s %s %d Allow=%q methods=%v body=%d Content-Length=%q", meth, path, o.BaseKind, o.HandlerID, o.EffStatus(), o.Header.Get("Allow"), o.NodeMethods, len(o.Body), o.Header.Get("Content-Length")))
+				obs = append(obs, fmt.Sprintf("%s %s -> %s %s %d Allow=%q methods=%v body=%d Content-Length=%q params=%v", meth, path, o.BaseKind, o.HandlerID, o.EffStatus(), o.Header.Get("Allow"), o.NodeMethods, len(o.Body), o.Header.Get("Content-Length"), rig.FmtParams(o.Params)))
 				if !o.NodeNil && m.R[o.Pattern] != nil && !rig.EqualSets(o.NodeMethods, m.AllowSet(o.Pattern)) {
 					return "", rig.Violf("fresh-router", "probe router: %s %s reports methods %v, model %v", meth, path, o.NodeMethods, m.AllowSet(o.Pattern))
 				}
@@ -317,6 +333,9 @@ func runInst(in Inst, tag string) *rig.Violation {
 				delete(autoVia, p)
 			}
 		}
+		if m.R[longRoute] != nil {
+			rig.Serve(front, rig.Req{Method: "GET", Path: prefix + "/l/1/2/3/4/5/6/7/8/9/other"}) // binds nine names, gives them up
+		}
 		for _, p := range m.Live() {
 			path, params := witness(p, strconv.Itoa(i))
 			for _, meth := range []string{"GET", "POST", "OPTIONS", "DELETE", "HEAD"} {
@@ -390,7 +409,19 @@ func runQuiescent(c Case) (*rig.Violation, int64) {
 	type key struct{}
 	var viol atomic.Pointer[rig.Violation]
 	var served atomic.Int64
+	var qr *mux.Router[*rig.H]
+	var qg *mux.Group[*rig.H]
+	var nroutes int
 	call := func(w http.ResponseWriter, r *http.Request, route types.Route, h *rig.H) {
+		// what handlers of a quiescent router may do at any time: read it
+		if got := len(qr.Routes()); got != nroutes {
+			viol.CompareAndSwap(nil, rig.Violf("quiescent-reads", "Routes() lists %d entries inside a handler, %d before the requests started", got, nroutes))
+		}
+		if qg != nil {
+			if qg.Router("q") != qr || qg.Router("q2") == nil || qg.Router("nope") != nil || len(qg.Routers()) != 2 || len(qg.Routes()["q"]) != nroutes {
+				viol.CompareAndSwap(nil, rig.Violf("quiescent-reads", "the group's Router / Routers / Routes accessors disagree with the group as built"))
+			}
+		}
 		want := r.Context().Value(key{}).(map[string]string)
 		read := func() map[string]string {
 			got := map[string]string{}
@@ -417,9 +448,20 @@ func runQuiescent(c Case) (*rig.Violation, int64) {
 		opts = append(opts, mux.WithLock(true))
 	}
 	nf := &rig.H{ID: "404", Kind: "404"}
-	r := mux.NewRouter[*rig.H]("q", call, nf,
-		func(n types.Node) *rig.H { return &rig.H{ID: "405", Kind: "405", Node: n} },
-		func(n types.Node) *rig.H { return &rig.H{ID: "options", Kind: "options", Node: n} }, opts...)
+	b405 := func(n types.Node) *rig.H { return &rig.H{ID: "405", Kind: "405", Node: n} }
+	bopt := func(n types.Node) *rig.H { return &rig.H{ID: "options", Kind: "options", Node: n} }
+	var r *mux.Router[*rig.H]
+	var front http.Handler
+	if c.QGroup {
+		qg = mux.NewGroup[*rig.H](call, nf, b405, bopt, opts...)
+		qg.New("q2", mux.NewPathVersion("", "never"))
+		r = qg.New("q", nil)
+		front = qg
+	} else {
+		r = mux.NewRouter[*rig.H]("q", call, nf, b405, bopt, opts...)
+		front = r
+	}
+	qr = r
 	ids := map[string]string{}
 	for i, rg := range c.QRegs {
 		if rg.Remove {
@@ -438,6 +480,7 @@ func runQuiescent(c Case) (*rig.Violation, int64) {
 	if len(pats) == 0 {
 		return nil, 0
 	}
+	nroutes = len(r.Routes())
 	var wg sync.WaitGroup
 	start := make(chan struct{})
 	for w := 0; w < c.QWorkers; w++ {
@@ -451,7 +494,7 @@ func runQuiescent(c Case) (*rig.Violation, int64) {
 				req := (&http.Request{Method: "GET", URL: &url.URL{Path: path}, Header: http.Header{"X-Want": {ids[p]}}}).
 					WithContext(contextWith(key{}, params))
 				rec := &nullWriter{h: http.Header{}}
-				if v, panicked := rig.Try(func() { r.ServeHTTP(rec, req) }); panicked {
+				if v, panicked := rig.Try(func() { front.ServeHTTP(rec, req) }); panicked {
 					viol.CompareAndSwap(nil, rig.Violf("quiescent-fault", "GET %s panicked: %v", path, v))
 				}
 			}
